@@ -31,7 +31,8 @@ type abstraction struct {
 }
 
 var inlineTags = map[string]bool{"b": true, "i": true, "em": true, "strong": true, "span": true, "u": true, "code": true}
-var blockDivTags = map[string]bool{"div": true, "section": true}
+// block-level containers that behave alike in the converter (also when empty, since 18a8bea)
+var blockDivTags = map[string]bool{"div": true, "section": true, "article": true, "main": true, "address": true, "header": true}
 
 func (a *abstraction) add(k string, d int) int {
 	a.nodes = append(a.nodes, absNode{K: k, D: d})
@@ -197,7 +198,7 @@ func findElement(n *html.Node, tag string) *html.Node {
 }
 
 var tagKind = map[string]string{"p": "P", "ul": "UL", "ol": "OL", "li": "LI", "blockquote": "BQ", "pre": "PRE", "a": "A",
-	"font": "FONT", "h1": "H", "h2": "H", "h3": "H", "h4": "H", "h5": "H", "h6": "H", "div": "DIV", "section": "DIV",
+	"font": "FONT", "h1": "H", "h2": "H", "h3": "H", "h4": "H", "h5": "H", "h6": "H", "div": "DIV", "section": "DIV", "article": "DIV", "main": "DIV", "address": "DIV", "header": "DIV",
 	"html": "BODY", "body": "BODY"}
 
 // builderEvents turns the hook events of one conversion pass into the records of Convert!Ev.
